@@ -192,6 +192,11 @@ class SymSpec(object):
         """boolean array: a[i] occurs in b (NumPy's isin; the library contract carries an explicit witness)"""
         return symnp.isin(a, b)
 
+    def np_apply(self, name, arr, axis=None, **kw):
+        """NumPy's own function `name` applied to the array (uninterpreted in the model, memoized on content / axis / keywords:
+        the very symbols the code obtains when it makes the same call)"""
+        return getattr(symnp, name)(arr, axis=axis, **kw)
+
     def sort_rank(self, arr):
         """rank[p] = position of element p in NumPy's argsort order (the inverse permutation of np.argsort)"""
         return symnp.argsort(arr).buf.tags["inverse"]
